@@ -27,11 +27,12 @@ type Plan struct {
 	ReactMs  int    `json:"react_ms,omitempty"`  // time the handler keeps running after its ctx was cancelled
 
 	// subscriptions
-	N       int  `json:"n,omitempty"`        // values to send
-	Early   int  `json:"early,omitempty"`    // values placed in the channel buffer before the handler returns
-	Pace    bool `json:"pace,omitempty"`     // each further send waits for a harness tick
-	Linger  bool `json:"linger,omitempty"`   // after N values keep the channel open until ctx is done
-	ElemPad int  `json:"elem_pad,omitempty"` // pad each stream element
+	N         int  `json:"n,omitempty"`          // values to send
+	Early     int  `json:"early,omitempty"`      // values placed in the channel buffer before the handler returns
+	Pace      bool `json:"pace,omitempty"`       // each further send waits for a harness tick
+	Linger    bool `json:"linger,omitempty"`     // after N values keep the channel open until ctx is done
+	IgnoreCtx bool `json:"ignore_ctx,omitempty"` // the stream handler never looks at its context (keeps sending / lingering)
+	ElemPad   int  `json:"elem_pad,omitempty"`   // pad each stream element
 }
 
 type Result struct {
@@ -64,9 +65,15 @@ type tokState struct {
 type World struct {
 	mu   sync.Mutex
 	toks map[string]*tokState
+	quit chan struct{} // closed when the rig is torn down: releases handlers that ignore their context
 }
 
-func NewWorld() *World { return &World{toks: map[string]*tokState{}} }
+func NewWorld() *World { return &World{toks: map[string]*tokState{}, quit: make(chan struct{})} }
+
+func (w *World) Quit() {
+	defer func() { recover() }()
+	close(w.quit)
+}
 
 func (w *World) st(tok string) *tokState {
 	s := w.toks[tok]
@@ -278,6 +285,30 @@ func (a *TokAPI) Notify(ctx context.Context, tok string, plan Plan) error {
 
 // Sub streams plan.N items carrying (tok, seq).
 func (a *TokAPI) Sub(ctx context.Context, tok string, plan Plan) (<-chan Item, error) {
+	return subGeneric(a, ctx, tok, plan, func(seq int) Item { return Item{Tok: tok, Seq: seq, Pad: padFor(tok, plan.ElemPad)} })
+}
+
+// SubInt streams integers that encode (hash of tok, seq).
+func (a *TokAPI) SubInt(ctx context.Context, tok string, plan Plan) (<-chan int64, error) {
+	return subGeneric(a, ctx, tok, plan, func(seq int) int64 { return IntItem(tok, seq) })
+}
+
+// SubStr streams strings "<tok>#<seq>".
+func (a *TokAPI) SubStr(ctx context.Context, tok string, plan Plan) (<-chan string, error) {
+	return subGeneric(a, ctx, tok, plan, func(seq int) string { return StrItem(tok, seq) })
+}
+
+func IntItem(tok string, seq int) int64 {
+	var h int64
+	for _, c := range tok {
+		h = (h*131 + int64(c)) % 1000003
+	}
+	return h*1000000 + int64(seq)
+}
+
+func StrItem(tok string, seq int) string { return fmt.Sprintf("%s#%d", tok, seq) }
+
+func subGeneric[T any](a *TokAPI, ctx context.Context, tok string, plan Plan, mk func(seq int) T) (<-chan T, error) {
 	s := a.W.enter(ctx, tok)
 	if plan.Fail != "" {
 		a.W.leave(tok)
@@ -291,20 +322,24 @@ func (a *TokAPI) Sub(ctx context.Context, tok string, plan Plan) (<-chan Item, e
 	if early > plan.N {
 		early = plan.N
 	}
-	ch := make(chan Item, early)
+	ch := make(chan T, early)
 	for i := 0; i < early; i++ {
-		ch <- Item{Tok: tok, Seq: i, Pad: padFor(tok, plan.ElemPad)}
+		ch <- mk(i)
 	}
 	a.W.mu.Lock()
 	s.sent = early
 	a.W.mu.Unlock()
 	go func() {
 		defer a.W.leave(tok)
+		done := ctx.Done()
+		if plan.IgnoreCtx {
+			done = a.W.quit
+		}
 		for i := early; i < plan.N; i++ {
 			if plan.Pace {
 				select {
 				case <-s.tick:
-				case <-ctx.Done():
+				case <-done:
 					a.note(s, ctx, i)
 					close(ch)
 					a.markClosed(s)
@@ -312,11 +347,11 @@ func (a *TokAPI) Sub(ctx context.Context, tok string, plan Plan) (<-chan Item, e
 				}
 			}
 			select {
-			case ch <- Item{Tok: tok, Seq: i, Pad: padFor(tok, plan.ElemPad)}:
+			case ch <- mk(i):
 				a.W.mu.Lock()
 				s.sent = i + 1
 				a.W.mu.Unlock()
-			case <-ctx.Done():
+			case <-done:
 				a.note(s, ctx, i)
 				close(ch)
 				a.markClosed(s)
@@ -324,7 +359,7 @@ func (a *TokAPI) Sub(ctx context.Context, tok string, plan Plan) (<-chan Item, e
 			}
 		}
 		if plan.Linger {
-			<-ctx.Done()
+			<-done
 			if plan.ReactMs > 0 {
 				time.Sleep(time.Duration(plan.ReactMs) * time.Millisecond)
 			}
@@ -360,6 +395,8 @@ type TokClient struct {
 	Notify func(ctx context.Context, tok string, plan Plan) error           `notify:"true"`
 	Retry  func(ctx context.Context, tok string, plan Plan) (Result, error) `retry:"true" rpc_method:"Tok.Call"`
 	Sub    func(ctx context.Context, tok string, plan Plan) (<-chan Item, error)
+	SubInt func(ctx context.Context, tok string, plan Plan) (<-chan int64, error)
+	SubStr func(ctx context.Context, tok string, plan Plan) (<-chan string, error)
 	NoCtx  func(tok string, plan Plan) (Result, error) `rpc_method:"Tok.Call"`
 }
 
